@@ -874,8 +874,17 @@ clr_poss(bitint383_t *restrict cand, const bitint383_t *poss)
 	return;
 }
 
+/* candidates are kept per year: the year of the period in slot 0, the year
+ * before and after in slots 1 and 2, two years before/after in 3 and 4,
+ * a shift of a year's length can get there */
+#define NYSETS		5U
+#define YSET(dy)	((dy) == 0 ? 0U : (dy) == -1 ? 1U : (dy) == 1 ? 2U : \
+			 (dy) < 0 ? 3U : 4U)
+#define YSET_DY(k)	((k) == 0U ? 0 : (k) == 1U ? -1 : (k) == 2U ? 1 : \
+			 (k) == 3U ? -2 : 2)
+
 static void
-shift(bitint383_t cand[static 3U], const unsigned int y, echs_shift_t sh)
+shift(bitint383_t cand[static NYSETS], const unsigned int y, echs_shift_t sh)
 {
 
 	if (LIKELY(!sh)) {
@@ -884,7 +893,7 @@ shift(bitint383_t cand[static 3U], const unsigned int y, echs_shift_t sh)
 
 	if (echs_shift_dvalue(sh)) {
 		const int d = echs_shift_dvalue(sh);
-		bitint383_t res[3U] = {0U};
+		bitint383_t res[NYSETS] = {0U};
 		int c;
 
 		/* go through candidates and shift */
@@ -911,24 +920,24 @@ shift(bitint383_t cand[static 3U], const unsigned int y, echs_shift_t sh)
 				goto reassess;
 			}
 			/* assign now */
-			ass_bi383(&res[(nu_y != y) << (nu_y > y)], pack_cand(nu_m, nu_d));
+			ass_bi383(&res[YSET((int)nu_y - (int)y)], pack_cand(nu_m, nu_d));
 		}
 		memcpy(cand, res, sizeof(res));
 	}
 	if (echs_shift_bday_p(sh)) {
 		/* business day shifts */
 		const int b = echs_shift_bvalue(sh);
-		bitint383_t res[3U] = {0U};
+		bitint383_t res[NYSETS] = {0U};
 		int c;
 
-		/* go through candidates and shift, sets 1 and 2 hold what a
-		 * preceding day shift moved into the year before and after */
-		for (size_t k = 0U; k < 3U; k++)
+		/* go through candidates and shift, the other sets hold what a
+		 * preceding day shift moved into the years before and after */
+		for (size_t k = 0U; k < NYSETS; k++)
 		for (bitint_iter_t ci = 0UL; (c = bi383_next(&ci, &cand[k]), ci);) {
 			const struct md_s md = unpack_cand(c);
 			int nu_d = md.d;
 			int nu_m = md.m;
-			unsigned int nu_y = y + (k == 2U) - (k == 1U);
+			unsigned int nu_y = y + YSET_DY(k);
 			echs_wday_t w = ymd_get_wday(nu_y, nu_m, nu_d);
 			unsigned int u5, u7;
 			int nu_b = b;
@@ -973,7 +982,7 @@ shift(bitint383_t cand[static 3U], const unsigned int y, echs_shift_t sh)
 				goto reassessB;
 			}
 			/* assign now */
-			ass_bi383(&res[(nu_y != y) << (nu_y > y)], pack_cand(nu_m, nu_d));
+			ass_bi383(&res[YSET((int)nu_y - (int)y)], pack_cand(nu_m, nu_d));
 		}
 		memcpy(cand, res, sizeof(res));
 	}
@@ -1067,7 +1076,7 @@ rrul_fill_yly(echs_instant_t *restrict tgt, size_t nti, rrulsp_t rr)
 
 	/* fill up the array the hard way */
 	for (res = 0UL, tries = 64U; res < nti && y < 2100U && --tries; y += rr->inter) {
-		bitint383_t cand[3U] = {0U};
+		bitint383_t cand[NYSETS] = {0U};
 		int yd;
 
 		/* stick to note 2 on page 44, RFC 5545 */
@@ -1137,9 +1146,9 @@ rrul_fill_yly(echs_instant_t *restrict tgt, size_t nti, rrulsp_t rr)
 		shift(cand, y, rr->shift);
 
 		/* now check the bitset */
-		for (int iy = -1; iy <= 1; iy++) {
+		for (int iy = -2; iy <= 2; iy++) {
 			for (bitint_iter_t all = 0UL;
-			     res < nti && (yd = bi383_next(&all, &cand[(iy != 0) << (iy > 0)]), all);) {
+			     res < nti && (yd = bi383_next(&all, &cand[YSET(iy)]), all);) {
 				for (ENUM_INIT(e, iS, iM, iH);
 				     res < nti && ENUM_COND(e, iS, iM, iH);
 				     ENUM_ITER(e, iS, iM, iH)) {
@@ -1296,7 +1305,7 @@ rrul_fill_mly(echs_instant_t *restrict tgt, size_t nti, rrulsp_t rr)
 		     } while (bui31_has_bits_p(rr->mon) &&
 			      !bui31_has_bit_p(rr->mon, m));
 	     })) {
-		bitint383_t cand[3U] = {0U};
+		bitint383_t cand[NYSETS] = {0U};
 		int yd;
 
 		/* stick to note 1 on page 44, RFC 5545 */
@@ -1326,9 +1335,9 @@ rrul_fill_mly(echs_instant_t *restrict tgt, size_t nti, rrulsp_t rr)
 		shift(cand, y, rr->shift);
 
 		/* now check the bitset */
-		for (int iy = -1; iy <= 1; iy++) {
+		for (int iy = -2; iy <= 2; iy++) {
 			for (bitint_iter_t all = 0UL;
-			     res < nti && (yd = bi383_next(&all, &cand[(iy != 0) << (iy > 0)]), all);) {
+			     res < nti && (yd = bi383_next(&all, &cand[YSET(iy)]), all);) {
 				for (ENUM_INIT(e, iS, iM, iH);
 				     res < nti && ENUM_COND(e, iS, iM, iH);
 				     ENUM_ITER(e, iS, iM, iH)) {
